@@ -48,6 +48,13 @@ def check_from_hash(cx):
     fn = cx.fn('gm_sm9::fields::mod_n_from_hash', 'F-HTR')
     if fn is None:
         return
+    if getattr(cx, '_from_hash_done', False):
+        return
+    cx._from_hash_done = True
+    # the reduction itself: every carry of the quotient estimate keeps its flag, and the Barrett correction is complete
+    from .. import rules_s as _S
+    _S.carry_chain(cx, 'A-CARRY', ('gm_sm9::',), 0, only=('mod_n_from_hash',))
+    _S.barrett(cx, 'I-BARRETT', fn, cx.F)
     P = Prov(fn, cx.F); cn = Canon(fn, P)
     from .. import rules_i as _I
     rets = [v for _, v in _I.returns(fn, cx.F)]       # through tail calls and whole-value moves as well
@@ -163,7 +170,3 @@ _run1 = run
 def run(cx):
     from .. import rules_s as S
     _run1(cx)
-    S.carry_chain(cx, 'A-CARRY', ('gm_sm9::',), 0, only=('mod_n_from_hash',))
-    fn = cx.fn('gm_sm9::fields::mod_n_from_hash', 'I-BARRETT')
-    if fn is not None:
-        S.barrett(cx, 'I-BARRETT', fn, cx.F)
